@@ -188,6 +188,8 @@ func printSchemaLine() {
 		emit("sd schema "+schemaID+" "+recgen.SchemaEncoding(model.Schema), "ok")
 		// the Lean ENCODER sub-driver keeps its own schema table
 		emit("se schema "+schemaID+" "+recgen.SchemaEncoding(model.Schema), "ok")
+		// the record API model: the same schema plus the types the generator stores by pointer
+		emit("ap schema "+schemaID+" "+recgen.SchemaEncoding(model.Schema)+" "+recgen.RecursiveNames(model), "ok")
 	}
 }
 
@@ -343,7 +345,8 @@ type runResult struct {
 	stream     []byte
 	chunkEnds  []int
 	truths     []string
-	werr       string // first writer error / panic ("" if none)
+	wmasks     []uint64 // the writer record's top-level modified mask just before each Write
+	werr       string   // first writer error / panic ("" if none)
 	wcount     uint64
 	callPanics []string
 }
@@ -453,6 +456,7 @@ func generate(r *rng.R, root *rootSpec, o wopts, cfg *recgen.Cfg, p genParams) (
 		}
 		h.steps = append(h.steps, step{kind: 'W'})
 		res.truths = append(res.truths, recgen.Dump(w.Rec(), root.ty))
+		res.wmasks = append(res.wmasks, recgen.ModifiedMask(w.Rec(), root.ty))
 		if err, pan := safe(w.Write); err != nil || pan != "" {
 			res.werr = fmt.Sprintf("Write #%d: %v%s", i, err, pan)
 			break
@@ -808,4 +812,48 @@ func olderWireSchema(r *rng.R, rootName string, cutOneofs bool) (ws *schema.Wire
 	}
 	w := schema.NewWireSchema(pr, rootName)
 	return &w, strings.Join(cut, ",")
+}
+
+// emitAPI replays the history on the Lean model of the generated record API (lean/Stef/Api.lean):
+// every public API call of the history (with the objects and CopyFrom sources it uses) is one `ap`
+// op line; at every Write the model must show the record the real writer held and its top-level
+// modified mask; at the end the model's values and marks, encoded by the proved encoder with the
+// frame boundaries and restart flags of the real stream, must give the real frame contents byte for
+// byte. A history with a call the model does not describe is skipped (counted), never approximated.
+func emitAPI(h *history, res *runResult, ps *parsedStream) {
+	if h.opts.schema != nil {
+		stats["api-histories-unsupported"]++
+		stats["api-unsupported-older-schema"]++
+		return
+	}
+	var steps []recgen.APIStep
+	for _, st := range h.steps {
+		if st.kind == 'c' || st.kind == 'W' {
+			steps = append(steps, recgen.APIStep{Kind: st.kind, Call: st.call})
+		}
+	}
+	var frames []recgen.APIFrame
+	for _, f := range ps.frames[1:] {
+		frames = append(frames, recgen.APIFrame{Flags: f.flags, NRec: f.nrec, Content: f.content})
+	}
+	lines, unsupported, ok := recgen.APIOps(schemaID, h.root.name, h.root.ty, h.gen, steps, res.wmasks, res.truths, frames,
+		func(stream []byte) string {
+			p := parseStream(stream)
+			if p.err != nil {
+				return ""
+			}
+			return hx(p.equivalent())
+		})
+	if !ok {
+		stats["api-histories-unsupported"]++
+		for k, v := range unsupported {
+			stats["api-unsupported-"+k] += v
+		}
+		return
+	}
+	stats["api-histories-supported"]++
+	stats["api-ops"] += len(lines)
+	for _, l := range lines {
+		emit(l[0], l[1])
+	}
 }
